@@ -24,7 +24,8 @@ RULE = ('The same generated scenario is executed three ways - core API (StreamFr
         'request_fire_and_forget / on_metadata_push / on_setup were invoked with the sent values. Plus long sources: a '
         'back-pressure-aware handler observable of 1500 elements with credit 700..2^31-1 whose result is disposed after 1-6 '
         'elements or 2-8 ticks under prompt delivery must not be drained to its end (the CANCEL has to get a chance to '
-        'stop it). Non-trivial = >= 3 '
+        'stop it). Plus: a fire-and-forget whose delegate suspends 0-4 loop iterations, followed by a request-response (same '
+        'read or the next tick): the delegate sees them in the order a core handler does. Non-trivial = >= 3 '
         'elements with request limit < element count, or an error / dispose position strictly inside the sequence; '
         'distinct = scenario hash.')
 ASSUMPTIONS = ['Rx 3 (rx) and ReactiveX 4 (reactivex) are importable in /venv', 'a plain observable may be buffered by the adapter']
@@ -581,6 +582,81 @@ def long_prop(sc):
     return out
 
 
+# ---- a fire-and-forget followed by another request: the order in which the delegate sees them (differential against core)
+
+def fnf_order_run(variant, k, same_read, msg):
+    """handler variant 'core' | 'rx3' | 'rx4'; the fire-and-forget handler suspends k loop iterations before it is done"""
+    import asyncio as aio
+
+    def factory(scn):
+        world = scn.world
+        P = A.lib()['Payload']
+
+        async def fnf_body():
+            world.ev('s', 'order', what='fnf_start')
+            for _ in range(k):
+                await aio.sleep(0)
+            world.ev('s', 'order', what='fnf_done')
+
+        if variant == 'core':
+            from rsocket.request_handler import BaseRequestHandler
+            from rsocket.helpers import create_future
+
+            class H(BaseRequestHandler):
+                async def request_fire_and_forget(self, payload):
+                    await fnf_body()
+
+                async def request_response(self, payload):
+                    world.ev('s', 'order', what='rr_handler')
+                    return create_future(P(b'answer', b''))
+
+            return H
+        M = rxmods(3 if variant == 'rx3' else 4)
+
+        class Delegate(M['Base']):
+            async def request_fire_and_forget(self, payload):
+                await fnf_body()
+
+            async def request_response(self, payload):
+                world.ev('s', 'order', what='rr_handler')
+                return M['rx'].of(P(b'answer', b''))
+
+        return M['hf'](Delegate)
+
+    ops = [['tick', 3]]
+    if same_read:
+        ops += [['regime', 'manual'], ['start'], ['start'], ['tick', 2], ['deliver', 'c', None], ['regime', 'pumped']]
+    else:
+        ops += [['start'], ['tick', 1], ['start']]
+    ops += [['tick', 8], ['settle']]
+    prog = {'cfg': {'msg': msg, 'frag': [None, None], 'rbuf': [1024, 1024]},
+            'inter': [{'k': 'fnf', 'side': 'c', 'req': [5, 0]}, {'k': 'rr', 'side': 'c', 'req': [4, 0], 'resp': {'mode': 'now', 'p': [1, 0]}}],
+            'ops': ops, 'heal': False, '_handler_factory': {'s': factory}}
+    tr = run_program(prog)
+    order = [e['what'] for e in tr.world.log if e['ev'] == 'order']
+    answered = any(e['ev'] == 'rr_result' for e in tr.world.log)
+    return order, answered, tr
+
+
+def fnf_order_prop(case):
+    out = []
+    ref, ref_ans, _ = fnf_order_run('core', case['k'], case['same_read'], case['msg'])
+    for variant in ('rx3', 'rx4'):
+        got, ans, tr = fnf_order_run(variant, case['k'], case['same_read'], case['msg'])
+        if got != ref or ans != ref_ans:
+            out.append(viol('delegate_order_differs_from_core', 'C20:%s:fnf_order' % variant, variant=variant, core=ref, adapter=got,
+                            k=case['k'], same_read=case['same_read']))
+        for err in tr.loop_errors:
+            out.append(viol('unhandled_exception', 'C20:%s:loop_error:%s' % (variant, err.get('type')), variant=variant))
+    info['nt'] = case['k'] > 0
+    info['classes'] = ['fnf_then_request=True']
+    return out
+
+
+def fnf_order_cases():
+    return [{'fnf_order': True, 'k': k, 'same_read': sr, 'msg': msg} for k in (0, 1, 2, 4) for sr in (True, False) for msg in (False, True)]
+
+
 VARIANTS = ('core', 'rx3', 'rx4', 'core/rx3', 'core/rx4', 'rx3/core', 'rx4/core')
 
 info = {}
@@ -626,6 +702,12 @@ def shard(tier, seed, n):
             stats.case(c, True, ['regression'])
             for v in common.judge(stats, known, c, vs):
                 stats.violations.append((v, c))
+        for c in fnf_order_cases():
+            vs = fnf_order_prop(c)
+            stats.case(c, info['nt'], info['classes'])
+            for v in common.judge(stats, known, c, vs):
+                if not any(v['sig'] == vv['sig'] for vv, _ in stats.violations):
+                    stats.violations.append((v, c))
         return stats
     common.hyp_search(stats, known, scenarios(), prop, n, seed, classify=classify)
     return stats
@@ -657,4 +739,6 @@ def replay(path):
     case = common.load_replay(path)
     if case.get('long'):
         return common.report_replay(PID, path, long_prop(case))
+    if case.get('fnf_order'):
+        return common.report_replay(PID, path, fnf_order_prop(case))
     return common.report_replay(PID, path, prop(case))
